@@ -714,6 +714,10 @@ func (fr *Frame) applyAssumed(st *State, g string, fc *FuncContract, name string
 		}
 		st = st.havoc(vc.fresh("eff"), names, false, allGhost)
 	}
+	// function-valued parameters the callee may invoke: their own frame applies
+	for _, pn := range fc.Invokes {
+		st = fr.applyInvokes(st, g, fc, pn, site)
+	}
 	// modifies
 	if !fc.Pure {
 		st = fr.applyModifies(st, pre, fc, env, args, ptypes)
@@ -1362,4 +1366,142 @@ func (fr *Frame) sortSlice(st *State, g string, x ssa.Value, mc *ssa.MakeClosure
 	f := vc.freshConst("sorted", fmt.Sprintf("(Array %s %s)", vc.goInt(), vc.sortOf(sl.Elem())))
 	st = fr.setVar(st, hv, fmt.Sprintf("(store %s (sref %s) %s)", st.get(hv), xs, f))
 	return st, nil
+}
+
+// applyInvokes: the external callee may call the function value passed as parameter pn any
+// number of times. If that value is a closure created here whose body is under contract, the
+// frame of that contract applies (its captured variables, its modifies items, its effects);
+// otherwise everything may change.
+func (fr *Frame) applyInvokes(st *State, g string, fc *FuncContract, pn string, site ssa.Instruction) *State {
+	vc := fr.vc
+	havocAll := func(why string) *State {
+		vc.note("callee %s may invoke %s: %s — all heaps and ghost effects havoc'ed", fc.Name, pn, why)
+		if t := fr.top(); t.fc != nil && t.fc.Kind == "func" {
+			if !t.modifiesAll() {
+				vc.addObl(&Obligation{Name: fmt.Sprintf("%s#frame.heap@%s", vc.unit, sanitize(fc.Name)), Kind: "frame", Props: t.props(), Guard: g, Goal: "false",
+					Src: "callee " + fc.Name + " invokes a function value without a known contract, but the caller has no `modifies heap`"})
+			}
+			if !t.effectAllowed("*") {
+				vc.addObl(&Obligation{Name: fmt.Sprintf("%s#frame.effect.any", vc.unit), Kind: "frame", Props: t.props(), Guard: "true", Goal: "false",
+					Src: "callee " + fc.Name + " invokes a function value without a known contract; the caller's effects clause must be `*`"})
+			}
+		}
+		fr.recordHavocAll(true, true)
+		return st.havoc(vc.fresh("invk"), nil, true, true)
+	}
+	idx := -1
+	for i, p := range fc.Params {
+		if p.Name == pn {
+			idx = i
+		}
+	}
+	ci, ok := site.(ssa.CallInstruction)
+	if idx < 0 || !ok {
+		return havocAll("parameter not found")
+	}
+	c := ci.Common()
+	var v ssa.Value
+	if c.IsInvoke() {
+		if idx == 0 {
+			v = c.Value
+		} else if idx-1 < len(c.Args) {
+			v = c.Args[idx-1]
+		}
+	} else if idx < len(c.Args) {
+		v = c.Args[idx]
+	}
+	for {
+		if ct, ok := v.(*ssa.ChangeType); ok {
+			v = ct.X
+			continue
+		}
+		break
+	}
+	mc, ok := v.(*ssa.MakeClosure)
+	if !ok {
+		return havocAll("not a closure created at the call site")
+	}
+	fn := mc.Fn.(*ssa.Function)
+	cfc := vc.eng.contractFor(fn)
+	if cfc == nil || cfc.Kind != "func" {
+		return havocAll("closure " + canonFunc(fn) + " has no contract")
+	}
+	vc.note("callee %s may invoke closure %s: the closure's own frame (captured variables, modifies, effects) applies", fc.Name, canonFunc(fn))
+	cinfo := fr.findClosure(mc)
+	// captured variables
+	if cinfo != nil {
+		for _, b := range cinfo.bindings {
+			if l, ok := cinfo.frame.locs[b]; ok {
+				f := vc.freshConst("capt", vc.sortOf(l.resultType()))
+				vc.assume(vc.rangeFact(f, l.resultType()))
+				fr.refFacts(f, l.resultType(), nil)
+				st = fr.store(st, l, f)
+			}
+		}
+	}
+	// effects
+	names := map[string]bool{}
+	allGhost := false
+	for _, e := range cfc.Effects {
+		if e == "*" {
+			allGhost = true
+			if t := fr.top(); t.fc != nil && !t.effectAllowed("*") {
+				vc.addObl(&Obligation{Name: fmt.Sprintf("%s#frame.effect.any", vc.unit), Kind: "frame", Props: t.props(), Guard: "true", Goal: "false",
+					Src: "closure " + cfc.Name + " may emit any effect; the caller's effects clause must be `*`"})
+			}
+			continue
+		}
+		cnt, tm, avs := vc.effectVars(e)
+		names[cnt], names[tm] = true, true
+		for _, a := range avs {
+			names[a] = true
+		}
+		if t := fr.top(); t.fc != nil && !t.effectAllowed(e) {
+			vc.addObl(&Obligation{Name: fmt.Sprintf("%s#frame.effect.%s", vc.unit, e), Kind: "frame", Props: t.props(), Guard: "true", Goal: "false",
+				Src: "closure " + cfc.Name + " may emit effect " + e + " which is not listed in the caller's effects clause"})
+		}
+	}
+	if len(names) > 0 || allGhost {
+		names[vc.clkVar()] = true
+		for n := range names {
+			fr.recordWrite(n)
+		}
+		if allGhost {
+			fr.recordHavocAll(false, true)
+		}
+		st = st.havoc(vc.fresh("invk"), names, false, allGhost)
+	}
+	// modifies items of the closure, evaluated with its captured variables bound to the caller's cells
+	env := fr.newEnv(st, st)
+	env.pkg = fn.Pkg.Pkg
+	if cinfo != nil {
+		env.resolve = func(name string, s *State) (TV, bool) {
+			for i, fv := range fn.FreeVars {
+				if fv.Name() == name && i < len(cinfo.bindings) {
+					if l, ok := cinfo.frame.locs[cinfo.bindings[i]]; ok {
+						return TV{term: fr.load(s, l), typ: l.resultType()}, true
+					}
+				}
+			}
+			return TV{}, false
+		}
+	}
+	ok2 := true
+	func() {
+		defer func() {
+			if r := recover(); r != nil {
+				switch r.(type) {
+				case unsupported, bindErr, evalErr:
+					ok2 = false
+				default:
+					panic(r)
+				}
+			}
+		}()
+		st = fr.applyModifies(st, st, cfc, env, nil, nil)
+	}()
+	if !ok2 {
+		return havocAll("modifies clause of " + cfc.Name + " cannot be evaluated at the call site")
+	}
+	return st
 }
